@@ -85,6 +85,19 @@ def _history3(s):
         pass
 
 
+def _history4(s):
+    """two directly contradicting constraints (the sat cache notices the pair in _add and remembers it as the core), then the questions"""
+    import claripy
+    x = claripy.BVS("sc_x", 8, explicit_name=True)
+    try:
+        s.add(x == 1)
+        s.add(x == 2)
+        s.satisfiable()
+        s.unsat_core()
+    except Exception:
+        pass
+
+
 def _variants(name):
     """constructor configurations: the default one and every Boolean option flipped (so that two flags never hold the same value)"""
     import claripy
@@ -257,7 +270,7 @@ def ob_statecov(cls):
             continue
         probs.append(("ownership", f"mutable container {ps} is shared with the branch ({pb})", {"class": cls, "cell": ps}))
     # copy fidelity: the branch holds the same plain-valued state, under two histories (one with unflushed adds)
-    runs = [(hn, h, {}) for hn, h in (("queried", _history), ("pending-adds", _history2), ("replacement+false", _history3))]
+    runs = [(hn, h, {}) for hn, h in (("queried", _history), ("pending-adds", _history2), ("replacement+false", _history3), ("contradiction", _history4))]
     runs += [(f"queried,{kw}", _history, kw) for kw in _variants(cls)[1:]]
     for hname, hist, kw in runs:
         try:
@@ -294,6 +307,16 @@ def ob_statecov(cls):
                 if len(s2._solver_list) == len(u2._solver_list) and not pos(s2) <= pos(u2):
                     probs.append(("pickle-fidelity", f"after the history '{hname}', children {sorted(pos(s2) - pos(u2))} of the {cls} were still to be checked for satisfiability; "
                                   "on the unpickled one they count as checked", {"class": cls, "attr": "_unchecked_solvers", "history": hname}))
+            if hname == "contradiction":
+                # the answers that the remembered state feeds: the unpickled solver must give the core the original gives
+                n += 1
+                try:
+                    c1, c2 = tuple(s2.unsat_core()), tuple(u2.unsat_core())
+                except Exception:  # noqa
+                    c1 = c2 = ()
+                if {id(x) for x in c1} != {id(x) for x in c2}:
+                    probs.append(("pickle-fidelity", f"after the history 'contradiction' unsat_core() of the unpickled {cls} is {c2!r}, the solver's is {c1!r}",
+                                  {"class": cls, "attr": "unsat_core()", "history": hname}))
             diffs, k = _fidelity(s2, u2, skip=PICKLE_DIFFERS_OK)
             if "_replacement_cache" in vars(u2) and _norm(vars(u2)["_replacement_cache"]) != _norm(vars(u2).get("_replacements")):
                 diffs.append(("_replacement_cache", "a copy of _replacements", repr(vars(u2)["_replacement_cache"])[:120]))
